@@ -352,6 +352,70 @@ theorem C10_debt_interleaved {tok : String} {s : St} (hnew : AList.get? s.borrow
   rw [C10_debt_interleaved_from hist s hrun I]
   unfold c10BorBase; rw [hnew]; simp
 
+/-! ### coherence comes from C13: histories made of whole bars -/
+
+/-- bar discipline of a run seen from a state coherent for bar `env`: an operation belongs to the current bar, a bar change
+    `(env', .newBar)` goes to a bar with complete non-zero data that lists the tokens held -/
+def C10BarDiscipline (env env' : Env) (s : St) (op : Op) : Prop :=
+  if op = .newBar then EnvOK env' ∧ EnvPos env' ∧ Covers env' s.supplies ∧ Covers env' s.borrows else env' = env
+
+theorem aave_barDiscipline_next {env env' : Env} {s : St} {op : Op} (hE : EnvOK env) (hP : EnvPos env)
+    (hs : Good aaveExact env s) (h : C10BarDiscipline env env' s op) :
+    EnvOK env' ∧ EnvPos env' ∧ Good aaveExact env' (step aaveExact env' s op).2 ∧ (op = .newBar ∨ Good aaveExact env' s) := by
+  unfold C10BarDiscipline at h
+  by_cases hop : op = .newBar
+  · subst hop
+    simp only [if_true] at h
+    exact ⟨h.1, h.2.1, C13_newBar_coherent s hs h.2.2.1 h.2.2.2, Or.inl rfl⟩
+  · simp only [hop, if_false] at h
+    subst h
+    exact ⟨hE, hP, C13_step_coherent hE hP s hs op hop, Or.inr hs⟩
+
+/-- a whole run for the supply ledger: bar discipline, and each step is a ledger step — where the `Good` that `withdraw` /
+    `update()` steps ask for may be assumed (it is what C13 proves of the state reached) -/
+def C10SupLedgerRunOK (tok : String) : Env → St → List (Env × Op) → Prop
+  | _, _, [] => True
+  | env, s, (env', op) :: rest =>
+      C10BarDiscipline env env' s op ∧ ((op = .newBar ∨ Good aaveExact env' s) → C10SupLedgerStep tok env' s op) ∧
+      C10SupLedgerRunOK tok env' (step aaveExact env' s op).2 rest
+
+def C10BorLedgerRunOK (tok : String) : Env → St → List (Env × Op) → Prop
+  | _, _, [] => True
+  | env, s, (env', op) :: rest =>
+      C10BarDiscipline env env' s op ∧ ((op = .newBar ∨ Good aaveExact env' s) → C10BorLedgerStep tok env' s op) ∧
+      C10BorLedgerRunOK tok env' (step aaveExact env' s op).2 rest
+
+theorem aave_ledgerRunOK {tok : String} (hist : List (Env × Op)) :
+    ∀ (env : Env) (s : St), EnvOK env → EnvPos env → Good aaveExact env s →
+      (C10SupLedgerRunOK tok env s hist → C10SupLedgerRun tok s hist) ∧
+      (C10BorLedgerRunOK tok env s hist → C10BorLedgerRun tok s hist) := by
+  induction hist with
+  | nil => intro _ _ _ _ _; exact ⟨fun _ => trivial, fun _ => trivial⟩
+  | cons p rest ih =>
+    intro env s hE hP hs
+    obtain ⟨env', op⟩ := p
+    constructor
+    · intro ⟨hd, hstep, hrest⟩
+      obtain ⟨hE', hP', hs', hg⟩ := aave_barDiscipline_next hE hP hs hd
+      exact ⟨hstep hg, (ih env' _ hE' hP' hs').1 hrest⟩
+    · intro ⟨hd, hstep, hrest⟩
+      obtain ⟨hE', hP', hs', hg⟩ := aave_barDiscipline_next hE hP hs hd
+      exact ⟨hstep hg, (ih env' _ hE' hP' hs').2 hrest⟩
+
+/-- **the interleaved accrual formula over a whole run**: start from a coherent state (e.g. the empty market) without a supply
+    of `tok`; no coherence hypothesis inside the run. -/
+theorem C10_supply_interleaved_run {env0 : Env} {tok : String} {s : St} (hE : EnvOK env0) (hP : EnvPos env0)
+    (hs : Good aaveExact env0 s) (hnew : AList.get? s.supplies tok = none)
+    (hist : List (Env × Op)) (hrun : C10SupLedgerRunOK tok env0 s hist) (I : Rat) :
+    c10SupBase tok (runHist aaveExact s hist) * I = c10Ledger (c10SupEvents tok s hist) I :=
+  C10_supply_interleaved hnew hist ((aave_ledgerRunOK hist env0 s hE hP hs).1 hrun) I
+
+theorem C10_debt_interleaved_run {env0 : Env} {tok : String} {s : St} (hE : EnvOK env0) (hP : EnvPos env0)
+    (hs : Good aaveExact env0 s) (hnew : AList.get? s.borrows tok = none)
+    (hist : List (Env × Op)) (hrun : C10BorLedgerRunOK tok env0 s hist) (I : Rat) :
+    c10BorBase tok (runHist aaveExact s hist) * I = c10Ledger (c10BorEvents tok s hist) I :=
+  C10_debt_interleaved hnew hist ((aave_ledgerRunOK hist env0 s hE hP hs).2 hrun) I
+
 /-! ### non-vacuity: 11 WETH supplied at index 1.1, a bar later (index 1.21) 12.1 more, then 6.05 withdrawn -/
 
 def c10iSt : St := { St.init with wallet := [("WETH", 30), ("USDC", 0)] }
@@ -392,6 +456,28 @@ example : C10SupLedgerRun "WETH" c10iSt c10iHist := by
     Or.inl (by simp [TouchesSupply]), Or.inr (Or.inr (Or.inr ⟨_, rfl, g6, ?_⟩)), trivial⟩
   intro _ hlt
   exact absurd hlt (by decide +kernel)
+/-- the same run satisfies the hypothesis of `C10_supply_interleaved_run` (no `Good` to establish by hand) -/
+example : C10SupLedgerRunOK "WETH" c10bEnv0 c10iSt c10iHist := by
+  have hE1 := c10b_envOK c10bEnv1 (Or.inr rfl)
+  have hd : ∀ k, k = "WETH" ∨ k = "USDC" → HasData c10bEnv1 k := by
+    intro k hk
+    rcases hk with h | h <;> subst h <;> exact ⟨⟨_, rfl⟩, ⟨_, rfl⟩, ⟨_, rfl⟩⟩
+  refine ⟨rfl, fun _ => Or.inr (Or.inr (Or.inl ⟨_, _, rfl⟩)), rfl,
+    fun hg => Or.inr (Or.inl ⟨rfl, Or.inr ⟨hg.resolve_left (by simp), rfl, by unfold C10HfOutside; decide +kernel⟩⟩),
+    ⟨hE1.1, hE1.2, ?_, ?_⟩, fun _ => Or.inl (by simp [TouchesSupply]),
+    rfl, fun _ => Or.inr (Or.inr (Or.inl ⟨_, _, rfl⟩)), rfl, fun _ => Or.inr (Or.inr (Or.inl ⟨_, _, rfl⟩)),
+    rfl, fun _ => Or.inl (by simp [TouchesSupply]),
+    rfl, fun hg => Or.inr (Or.inr (Or.inr ⟨_, rfl, hg.resolve_left (by simp), ?_⟩)), trivial⟩
+  · intro k hk
+    have : keys (step aaveExact c10bEnv0 (step aaveExact c10bEnv0 c10iSt (.supply "WETH" 11 true)).2 .update).2.supplies = ["WETH"] := by
+      decide +kernel
+    rw [this] at hk; simp at hk; exact hd k (Or.inl hk)
+  · intro k hk
+    have : keys (step aaveExact c10bEnv0 (step aaveExact c10bEnv0 c10iSt (.supply "WETH" 11 true)).2 .update).2.borrows = [] := by
+      decide +kernel
+    rw [this] at hk; simp at hk
+  · intro _ hlt
+    exact absurd hlt (by decide +kernel)
 /-- … and the formula gives the balance: scaled 10 + 10 − 5 = 15, i.e. 18.15 WETH at index 1.21 -/
 example : c10Ledger (c10SupEvents "WETH" c10iSt c10iHist) (121/100) = 1815/100 ∧
     c10SupBase "WETH" (runHist aaveExact c10iSt c10iHist) * (121/100) = 1815/100 := by decide +kernel
